@@ -72,6 +72,8 @@ func C20(c *core.Ctx) {
 		{"cap larger than timeout: single wait cut by the deadline", 200 * ms, 1000 * ms, -1, 2 * ms, 1, false},
 		{"slow attempts (80ms) forever failing", 300 * ms, 50 * ms, -1, 80 * ms, 3, false},
 		{"attempt in progress at the deadline", 100 * ms, 40 * ms, -1, 150 * ms, 1, false},
+		{"first attempt succeeds, but only after the deadline", 100 * ms, 40 * ms, 0, 150 * ms, 1, false},
+		{"second attempt succeeds after the deadline", 120 * ms, 40 * ms, 1, 70 * ms, 2, false},
 		{"max retry delay 0, timeout 60ms (busy loop finding)", 60 * ms, 0, -1, 1 * ms, 0, false},
 		{"max retry delay negative, timeout 60ms (busy loop finding)", 60 * ms, -5 * ms, -1, 1 * ms, 0, false},
 		{"max retry delay 0, k=3", 500 * ms, 0, 3, 1 * ms, 4, false},
@@ -135,6 +137,9 @@ func C20(c *core.Ctx) {
 			} else if calls != cs.failures+1 {
 				gt = fmt.Sprintf("%d calls for a getter that succeeds at call %d", calls, cs.failures+1)
 			}
+		case cs.failures == 0:
+			// the first attempt is always made and it succeeded
+			gt = fmt.Sprintf("the wrapped getter succeeded at its first call, yet an error was returned (%v) after %d call(s)", res.err, calls)
 		default:
 			bound := cs.timeout
 			if bound < 0 {
